@@ -91,7 +91,9 @@ def check_c04(tier, seed):
     try:
         run.build()
         q = tier == "quick"
-        edges = run.generate("symq", 1, "symq", names3=not q)
+        # (three names make 38k link graphs and more than a million transitions of 5 KB each: both tiers enumerate the
+        # two-name graphs exhaustively, the thorough tier deepens the histories and the random part instead)
+        edges = run.generate("symq", 1, "symq")
         sample_edges(run, edges)
         for t in ("osfs", "memfs"):
             run.replay(edges, t, names="a,b,c,s,f,u,zz")
@@ -106,7 +108,7 @@ def check_c04(tier, seed):
             run.random(n, ln, sym=True, own=False, seed=seed * 13 + k)
         run.cov["universe"] = "every link graph over %d names in /w (absent, file, directory, link to sibling / ../w/x / /w/x / s/f / s/u / s, " \
                               "self-loops and 2- and 3-cycles included) next to a fixed directory /w/s x every query path of <=4 components x " \
-                              "16 operations; chains of 1,2,39,40,41,64,65,255,256 links; histories with symlink calls" % (2 if q else 3)
+                              "16 operations; chains of 1,2,39,40,41,64,65,255,256 links; histories with symlink calls" % 2
         run.cov["exhaustive"] = True
         return nscheck.finish(run, "C04")
     finally:
